@@ -45,16 +45,19 @@ namespace fs = sim::fs;
 
 namespace {
 
-enum FaultId { F_preemption, F_child_first, F_parent_first, F_lock_contention, F_clean_restart };
+enum FaultId { F_preemption, F_child_first, F_parent_first, F_lock_contention, F_clean_restart, F_crash };
 const char* const kFaultNames[] = { "mt_preemption", "mt_child_runs_first_at_create", "mt_parent_runs_first_at_create",
-                                    "mt_mutex_contention", "mt_clean_restart_between_rounds" };
+                                    "mt_mutex_contention", "mt_clean_restart_between_rounds",
+                                    "mt_crash_while_threads_write" };
 enum ProbeId { P_run, P_counted, P_max_size, P_rollover_with_threads, P_generations_dropped, P_two_calls_overlapped,
                P_file_order_differs_from_call_order, P_waited_for_handler_lock, P_restart_on_full, P_restart_on_partly_filled,
-               P_three_or_more_writers };
+               P_three_or_more_writers, P_crash_planned_but_not_reached, P_calls_in_flight_at_crash,
+               P_recovery_round_after_crash };
 const char* const kProbeNames[] = { "mt_run", "mt_counted", "mt_max_size", "mt_rollover_while_threads_write",
                "mt_generations_dropped", "mt_two_message_calls_overlapped", "mt_file_order_differs_from_call_order",
                "mt_waited_for_handler_lock", "mt_restart_on_full_generation0", "mt_restart_on_partly_filled_generation0",
-               "mt_three_or_more_writer_threads" };
+               "mt_three_or_more_writer_threads", "mt_crash_planned_but_not_reached",
+               "mt_message_calls_in_flight_at_crash", "mt_recovery_round_after_crash" };
 
 class PlainFormat final: public celma::log::detail::IFormatStream
 {
@@ -72,6 +75,8 @@ struct Rec
    uint64_t     inv = 0, ret = 0;
    bool         returned = false;
    bool         threw = false;
+   /// the call returned while the disk was still alive: the message is durable
+   bool         acked = false;
 };
 
 std::atomic< uint64_t>  g_event{ 0 };
@@ -97,6 +102,7 @@ void writer( celma::log::detail::ILogDest* dest, std::vector< Rec>* recs, size_t
       {
          r.threw = true;
       }
+      r.acked = !fs::frozen();
       r.ret = nextEvent();
       r.returned = true;
    }
@@ -207,6 +213,22 @@ public:
          rounds.push( counts);
       }
       plan[ "rounds"] = rounds;
+      if (cfg.chance( 1, 3))
+      {
+         // the process is killed at the n-th write call of one round; the
+         // following rounds (always at least one) are the new process
+         Json  crash = Json::object();
+         crash[ "round"] = cfg.range( 0, nrounds - 1);
+         crash[ "write"] = cfg.range( 0, 2 * threads);
+         plan[ "crash"] = crash;
+         if (crash.geti( "round") == nrounds - 1)
+         {
+            Json  counts = Json::array();
+            for (long long t = 0; t < threads; ++t)
+               counts.push( cfg.range( 1, 2));
+            plan[ "rounds"].push( counts);
+         }
+      }
       plan[ "sched"] = sim::genSchedule( sc, 3000 * static_cast< uint64_t>( threads));
       return plan;
    }
@@ -247,6 +269,9 @@ public:
             if (counts.size() == 4) break;
          }
       if (counts.empty()) counts.push_back( std::vector< size_t>( static_cast< size_t>( threads), 1));
+      const bool       crash_planned = plan.get( "crash").isObj();
+      const long long  crash_round = crash_planned ? plan.get( "crash").geti( "round", 0) : -1;
+      const long long  crash_write = crash_planned ? std::max< long long>( 0, plan.get( "crash").geti( "write", 0)) : 0;
 
       // all messages of the run, texts unique and shorter than any byte limit
       std::vector< Rec>                  recs;
@@ -279,6 +304,8 @@ public:
       mLimit = static_cast< size_t>( limit);
       mMaxGen = max_gen;
       mDefaultFormatter = default_formatter;
+      mCrashed = false;
+      mLongestInFlight = 0;
       bool  dropped = false;
       size_t  gens_on_disk = 0;
 
@@ -312,6 +339,17 @@ public:
             res.fail( "VIOLATION", "I0-open", std::string( "round ") + std::to_string( r) + ": the log destination could not be created: " + e.what());
             break;
          }
+         const bool  crash_here = (static_cast< long long>( r) == crash_round);
+         if (crash_here)
+         {
+            fs::Fault  f;
+            f.kind = "crash";
+            f.at = "write";
+            f.n = crash_write;
+            f.bytes = 0;   // nothing of that call reaches the disk: complete lines only
+            fs::opBegin( { f });
+         }
+         if (mCrashed && static_cast< long long>( r) == crash_round + 1) st.probe( P_recovery_round_after_crash);
          std::vector< std::thread>  ths;
          std::atomic< int>          go{ 0 };
          for (size_t t = 0; t < counts[ r].size(); ++t)
@@ -319,7 +357,29 @@ public:
          go.store( 1);
          for (auto & t : ths)
             t.join();
+         if (crash_here)
+         {
+            const fs::OpReport  rep = fs::opEnd();
+            if (rep.crashed)
+            {
+               mCrashed = true;
+               for (auto const& rec : recs)
+                  if (rec.round == static_cast< int>( r) && !rec.acked)
+                     mLongestInFlight = std::max( mLongestInFlight, rec.text.size());
+               st.fault( F_crash);
+               for (auto const& rec : recs)
+                  if (rec.round == static_cast< int>( r) && rec.returned && !rec.acked) { st.probe( P_calls_in_flight_at_crash); break; }
+            } else
+               st.probe( P_crash_planned_but_not_reached);
+         }
+         // (after a crash the dead process' objects cannot touch the frozen disk)
          dest.reset();
+         if (fs::frozen())
+         {
+            fs::thaw();
+            fs::closeLeaked();
+            fs::pidSet( 4243 + static_cast< int>( r));
+         }
          checkFiles( recs, r, res, st, th, trace, dropped, gens_on_disk);
       }
       sim::SchedStats  ss;
@@ -377,6 +437,8 @@ private:
    size_t  mLimit = 3;
    int     mMaxGen = 2;
    bool    mDefaultFormatter = false;
+   bool    mCrashed = false;
+   size_t  mLongestInFlight = 0;
 
    static std::string fileName( int gen) { return "/simfs/logs/mt." + std::to_string( gen); }
 
@@ -456,7 +518,7 @@ private:
          {
             by_text[ recs[ k].text] = k;
             ++issued;
-            if (recs[ k].threw)
+            if (recs[ k].threw && recs[ k].acked)
             {
                res.fail( "VIOLATION", "I0-write", when + ": writing message '" + recs[ k].text + "' threw although no fault was injected");
                return;
@@ -518,6 +580,8 @@ private:
       for (size_t k = 0; k < recs.size(); ++k)
       {
          if (!recs[ k].returned || present[ k]) continue;
+         // a call that had not returned when the process was killed promises nothing
+         if (!recs[ k].acked) continue;
          ++lost;
          if (static_cast< int>( files.size()) < mMaxGen)
          {
@@ -558,6 +622,9 @@ private:
          size_t       next_len = 0;
          if (newer != files.end() && !newer->second.empty())
             next_len = newer->second.find( '\n');
+         // the process was killed: the message for which the generation was
+         // left may be one whose call never completed (its write did not land)
+         next_len = std::max( next_len, mLongestInFlight);
          const bool  full = mCounted ? (lines >= mLimit) : (mDefaultFormatter || kv.second.size() + next_len + 1 >= mLimit);
          if (!full)
          {
